@@ -107,6 +107,21 @@ static std::string handle(const Case& c) {
             default: return "unsupported";
         }
     }
+    // ---- a run-time-checked stage that may succeed, followed by a SECOND checked indexing stage that may fail (and further stages)
+    if (op == "pipe3") {
+        int k = (int)c.args[1].val;
+        auto d1 = iv(c.args[2]); auto d2 = iv(c.args[3]);
+        auto r1 = view::reshape(a, d1);                 // stage 1: maybe<view>
+        switch (k) {
+            case 0: return status(view::reshape(r1, d2));
+            case 1: return status(na::eval(view::reshape(r1, d2)));
+            case 2: return status(view::broadcast_to(r1, uv(c.args[3])));
+            case 3: return status(view::reshape(view::transpose(r1), d2));
+            case 4: return status(view::transpose(view::reshape(r1, d2)));
+            case 5: return status(view::reshape(view::reshape(r1, d2), std::vector<int>{-1}));
+            default: return "unsupported";
+        }
+    }
     return "unsupported";
 }
 
